@@ -42,18 +42,6 @@ def parseReps : P (List (Nat × List Int)) := do
 def encReps (reps : List (Nat × List Int)) : String :=
   joinToks (toString reps.length :: reps.map (fun (k, w) => s!"{k} {encInts w}"))
 
-/-- a `CosetTable` (no coincidences pending) whose public view is `view`:
-    model rows are indexed by `g + nrGens` -/
-def tableOfView (n : Nat) (view : Tab) : Table :=
-  { nrGens := n
-    rows := view.map fun r =>
-      ((List.range (2 * n + 1)).map fun (j : Nat) =>
-        let g : Int := (j : Int) - n
-        match col n g with
-        | some c => r.getD c (-1)
-        | none => (-1 : Int)).toArray
-    part := Part.new }
-
 def modelTable (i : Inp) : Outcome (List (List Int)) :=
   match cosetTable i.n (i.rels.map FW.new) (i.subs.map FW.new) with
   | .ok t => t.view
@@ -86,7 +74,7 @@ def handler : Handler := fun op inp out =>
         (outcomeStr (fun _ => "-") (modelTable i), fail "no-representatives-returned")
       | some (tl, reps) =>
         let t := tabOfLists tl
-        let m := outcomeStr (fun r => s!"{encTab t} {encReps r}") (cosetRepresentative (tableOfView i.n t))
+        let m := outcomeStr (fun r => s!"{encTab t} {encReps r}") (cosetRepresentative (Table.ofView i.n t))
         (m, check [("one-representative-per-row-tracing-to-it", repsOk t i.n reps)])
     | _ => ("-", fail s!"driver-unknown-op-{op}")
 
